@@ -13,7 +13,9 @@ def run(ctx):
                 "(value, bytes, value read back) is an event that TLC validates against T1Charstring!CanonicalNum / DecodeNum. "
                 "(b) fractional deltas incl. k/q +- eps for all q <= 107: TLC checks the written p q div with exact "
                 "arithmetic: q in 1..107 and |p/q - x| <= 1/214. (c) paths of up to 10^3 (10^4) segments: every point after "
-                "write + independent decode and after type1.Read is within 1/214 of the original. (d) T1Drift.tla: TLC "
+                "write + independent decode and after type1.Read is within 1/214 of the original, incl. one staircase per command "
+                "form and two paths of 6000 steps whose other coordinate creeps by 9e-7 per step; stem hints of glyphs whose "
+                "outline starts away from the origin decode (relative to the declared side bearing point) to the font's values. (d) T1Drift.tla: TLC "
                 "verifies the no-accumulation argument for unbounded path length on a scaled model and finds the drift of the "
                 "faulty design.")
     ctx.assumptions = ["(c) is judged by the harness in float64 (the exact-rational machine would need unbounded denominators); "
